@@ -192,7 +192,29 @@ fn main() {
 			let es: Vec<String> = o.get_mapped_entries(&cm, 0, q).map(|e| format!("{}.{}.{}", e.offset, e.value.key.offset, e.value.value.offset)).collect();
 			let vs: Vec<String> = o.get_mapped(&cm, 0, q).map(|e| format!("{}", e.offset)).collect();
 			let is: Vec<String> = o.iter_mapped(&cm, 0).map(|e| format!("{}.{}.{}", e.offset, e.value.key.offset, e.value.value.offset)).collect();
-			format!("E {} V {} I {}", es.join(";"), vs.join(";"), is.join(";"))
+			let ws: Vec<String> = o.get_mapped_entries_with_index(&cm, 0, q).map(|(i, e)| format!("{}@{}.{}.{}", i, e.offset, e.value.key.offset, e.value.value.offset)).collect();
+			let xs: Vec<String> = o.get_mapped_with_index(&cm, 0, q).map(|(i, e)| format!("{}@{}", i, e.offset)).collect();
+			let u1 = match o.get_unique_mapped_entry(&cm, 0, q) {
+				Ok(None) => "none".to_string(),
+				Ok(Some(e)) => format!("one:{}", e.offset),
+				Err(d) => format!("dup:{}+{}", d.0.offset, d.1.offset),
+			};
+			let u2 = match o.get_unique_mapped(&cm, 0, q) {
+				Ok(None) => "none".to_string(),
+				Ok(Some(e)) => format!("one:{}", e.offset),
+				Err(d) => format!("dup:{}+{}", d.0.offset, d.1.offset),
+			};
+			let u3 = match o.get_unique_mapped_entry_with_index(&cm, 0, q) {
+				Ok(None) => "none".to_string(),
+				Ok(Some((i, e))) => format!("one:{}@{}", i, e.offset),
+				Err(d) => format!("dup:{}@{}+{}@{}", d.0 .0, d.0 .1.offset, d.1 .0, d.1 .1.offset),
+			};
+			let u4 = match o.get_unique_mapped_with_index(&cm, 0, q) {
+				Ok(None) => "none".to_string(),
+				Ok(Some((i, e))) => format!("one:{}@{}", i, e.offset),
+				Err(d) => format!("dup:{}@{}+{}@{}", d.0 .0, d.0 .1.offset, d.1 .0, d.1 .1.offset),
+			};
+			format!("E {} V {} I {} W {} X {} U {} {} {} {}", es.join(";"), vs.join(";"), is.join(";"), ws.join(";"), xs.join(";"), u1, u2, u3, u4)
 		}));
 		match r {
 			Ok(l) => println!("{}", l),
